@@ -1195,6 +1195,10 @@ func (fr *Frame) checkInvariants(li *loopInfo, e inEdge, kind string) {
 		fc.oblige(fr, kind, fmt.Sprintf("L%d:auto", li.ordinal), e.guard, a, li.header.Instrs[0].Pos(), "automatic range bound", fr.props())
 	}
 	env := fr.specEnv(st, fr.entry)
+	env.loopEntry = li.entry // inv-keep: the state in which the loop was entered
+	if kind == "inv-init" {
+		env.loopEntry = st // on an entry edge the loop-entry state is the state of that edge
+	}
 	for i, cl := range fr.invariantsOf(li) {
 		t, err := env.evalBool(cl.E)
 		if err != nil {
@@ -1222,6 +1226,7 @@ func (fr *Frame) assumeInvariants(li *loopInfo, st *State, g string) {
 		fc.assume(g, a)
 	}
 	env := fr.specEnv(st, fr.entry)
+	env.loopEntry = li.entry
 	for _, cl := range fr.invariantsOf(li) {
 		t, err := env.evalBool(cl.E)
 		if err != nil {
